@@ -23,6 +23,7 @@ RULE = ('Hypothesis type-directed programs (1-6 statements, nesting <= 4, host-s
 ASSUMPTIONS = ['reference interpreter delegates Decimal arithmetic to Python decimal (exactness is C08\'s oracle)',
                'cases outside the reference\'s stated builtin domains are discarded and counted (Unspec)']
 
+BUDGET = 200000
 _parser = None
 
 
@@ -48,7 +49,7 @@ def run_source(src, env):
     except Exception as e:  # noqa  a rendering the parser rejects is C06's business
         return [], {'discard': 'parse:' + type(e).__name__}
     renv = copy.deepcopy(env)
-    out, interp = refsem.run(tree, renv)
+    out, interp = refsem.run(tree, renv, max_ops=BUDGET)
     if out[0] == 'unspec':
         return [], {'discard': 'unspec'}
     ienv = copy.deepcopy(env)
@@ -56,7 +57,7 @@ def run_source(src, env):
     gk, got, ge = 'value', None, None
     with mon.on():
         try:
-            got = p.eval(src, ienv, max_ops_evaluated=10 ** 7)
+            got = p.eval(src, ienv, max_ops_evaluated=BUDGET)
         except ParserError as e:
             gk, ge = 'lang', e
         except RecursionError:
